@@ -37,6 +37,8 @@ fn pool() -> Vec<(&'static str, bool)> {
 const COSMETIC_RULES: &[&str] = &[
     "x.com##.ad", "##.generic", "x.com##+js(s1, v)", "x.com#@#.generic", "@@||gh.com^$generichide", "ads.net##.banner:style(top:0)",
     "@@*$generichide,domain=gd.com|gd2.com", "@@/article/*$generichide,domain=news.com",
+    // one regex text with and without match-case, reachable by different request types
+    "/Fo+\\/Bar/$match-case,script", "/Fo+\\/Bar/$image",
 ];
 
 fn list_answers(idx: u64, reqs: &[alpha::Req], full: bool) -> (u64, Vec<String>) {
